@@ -467,6 +467,12 @@ def run(run: core.Run) -> int:
         srcs = repo_sources()
         n_prog = 300 if quick else 6000
         srcs += [{"src": gen_program(r), "file": None, "origin": "generated-program"} for _ in range(n_prog)]
+        # programs of the shared grammar-directed generator (language strings, message switches, all statement forms),
+        # printed in canonical and random layout (comments and blanks at every token boundary)
+        from .. import escommon
+        for style in ("canonical", "random"):
+            srcs += [{"src": g["text"], "file": None, "origin": "generated-program-" + style}
+                     for g in escommon.gen_programs(r, max(20, n_prog // 6), escommon.default_cfgs(run.tier), style)]
         ch = 100
         chunks = [srcs[i:i + ch] for i in range(0, len(srcs), ch)]
         outs = ck.pool.map("harness.impl_pyg:compile_sources", chunks, timeout=300)
